@@ -291,7 +291,16 @@ class C08(Plugin):
         from html5lib.constants import booleanAttributes, rcdataElements
         opts = opts or {}
 
-        exp_stripped = guide_and_expected(stream, strip=True)[1]
+        exp_stripped = []
+        for t in guide_and_expected(stream, strip=True)[1]:
+            if t[0] == 3:          # two attributes that now share a name: the tokenizer keeps the first
+                seen, attrs = set(), []
+                for k, v in t[2]:
+                    if k not in seen:
+                        seen.add(k)
+                        attrs.append([k, v])
+                t = [3, t[1], attrs]
+            exp_stripped.append(t)
 
         def relax(toks, strip_prefix=False, bool_values=False, cr=False):
             if strip_prefix:
